@@ -26,4 +26,4 @@ OBLIGATIONS += [
         bounds_q="LZMA data of <= 8 bytes, Compressed Size 1..65536, every cut point; input does not extend beyond the chunk's LZMA data"),
 ]
 OBLIGATIONS += reuse("C03", r"lzma2_chunk_layer")      # whole LZMA2 chunk layer: every input, every slicing, vs the chunk grammar
-OBLIGATIONS += reuse("C05", r"block_body_rules|index_hash_exact")   # Block body / Index verification: every slicing
+OBLIGATIONS += reuse("C05", r"block_body_rules|index_hash_exact_(1call|sliced)")   # Block body / Index verification: every slicing
